@@ -107,8 +107,24 @@ def gen_plugins():
     return 'Plugins.lean', body
 
 
+def _run_is_for_c17():
+    """PluginClasses.lean is consumed only by Props/WiringC17.lean, which only C17's own check (and --setup) builds.  Runs of
+    OTHER properties -- possibly against a scratch worktree of a different revision -- leave the file alone, so that
+    concurrent checks do not rewrite it under a running `lake build`."""
+    import re
+    import sys
+    argv = sys.argv[1:]
+    if '--setup' in argv:
+        return True
+    props = [a.upper() for a in argv if re.fullmatch(r'[cC]\d\d', a)]
+    return not props or 'C17' in props
+
+
 @tables.generator
 def gen_plugin_classes():
+    path = os.path.join(tables.GEN_DIR, 'PluginClasses.lean')
+    if not _run_is_for_c17() and os.path.exists(path):
+        return 'PluginClasses.lean', open(path).read().split('\n', 1)[1]      # unchanged (header line removed)
     from pybtex.database.input import BaseParser
     from pybtex.database.output import BaseWriter
     s = tables.lean_str
